@@ -9,6 +9,7 @@ Generated constants (`cliFilterPatterns`, `durRegexAnchored*`, `tzTable`,
 import S4V.Lemmas.Cli
 import S4V.Lemmas.CliRows
 import S4V.Lemmas.CliTime
+import S4V.Lemmas.CliAbs
 
 namespace S4V.Props.CliSpec
 open S4V.Model.Cli S4V.Gen.CliTables S4V.Lemmas.Cli S4V.Lemmas.CliRows
@@ -398,5 +399,247 @@ theorem C14_no_steal_repr :
       | some row => firstRow cliFilterPatterns (reprValue row.pattern.toList) 19800 == some (reprDenote row 19800)
       | none => false) = true := by
   decide +kernel
+
+/-! ## absolute forms: EVERY value of every row (C14_abs)
+
+A value is given by its fields (`S4V.Lemmas.CliAbs.Fields`): year, month, day, hour, minute,
+second, milliseconds (`%3f`), microseconds (`%6f`), a numeric zone (sign character, hours, minutes
+and one of the spellings `±HHMM`, `±HH:MM`, and for `%#z` also `±HH`, `Z`, `z`), a zone name (`%Z`)
+and the digits of `%s`. `render row f` writes the fields through the row's OWN pattern items
+(`parsePattern row.pattern`): `%Y` four digits, `%m %d %H %M %S` two digits, `%3f`/`%6f` exactly
+three / six digits, literals as they stand. `Fields.Valid` is the range the interpreter accepts:
+year `0000 … 9999` (an unsigned `%Y` reads at most four digits), a valid calendar date, hour `≤ 23`,
+minute `≤ 59`, second `≤ 60` (`60` = leap-second reading: stored as `:59` with a fraction `≥ 10^9`,
+the instant is that of `:60`, see `C14_abs_instant`), zone sign `+`, `-` or U+2212, zone hours `≤ 23`,
+zone minutes `≤ 59`, a zone name the generated table maps to a non-empty offset, `%s` a non-empty
+digit string `≤ 8210266790399` (chrono's last second minus one day). `denote row f tz` is computed from
+`S4V.Model.Time.epochSeconds`, not from the interpreter. -/
+
+section AbsAll
+open S4V.Lemmas.CliAbs
+
+/-- "every value of every supported absolute notation resolves, through its own row, to the instant it
+denotes": explicit zone wins, zone-less is read at `--tz-offset`, a bare date means 00:00:00 — TRUE on
+this tree for all 76 generated rows: `C14_abs`. (`styleOk`: a `%z` / `%:z` row is given the minutes;
+`%#z` rows take every spelling.) -/
+def C14_abs_full : Prop :=
+  ∀ row ∈ cliFilterPatterns, ∀ f : Fields, f.Valid → styleOk f (parsePattern row.pattern.toList) = true →
+    ∀ tz : Int, -86400 < tz ∧ tz < 86400 →
+      attemptRow row (render row f) tz = some (denote row f tz)
+
+/-- **C14_abs.** For EVERY row of the generated table and EVERY value of the row's grammar. The proof
+unfolds the generated rows and the generated zone-name table (`rows_ok`, `tzTable_ok`: decided table
+facts) and lifts them by the round-trip lemmas of `S4V.Lemmas.CliAbs`. -/
+theorem C14_abs : C14_abs_full := fun row hrow f hf hst tz htz =>
+  attemptRow_render row f hf tz htz (List.all_eq_true.mp rows_ok row hrow) hst
+
+/-- all 76 rows satisfy the decidable per-row condition the general proof needs (none is left to its
+representative fact) -/
+theorem C14_abs_rows_covered : (cliFilterPatterns.filter RowOk).length = cliFilterPatternsCount := by
+  decide +kernel
+
+/-- what `denote` says, civil rows: the instant (nanoseconds since the epoch) of the written
+date-time — midnight for a bare date — with the fraction the pattern carries, at the written numeric
+zone, else at the named zone, else at `--tz-offset`. Holds for the leap-second reading `:60` too. -/
+theorem C14_abs_instant (row : Row) (f : Fields) (tz : Int)
+    (hts : (parsePattern row.pattern.toList).contains .timestamp = false) :
+    (denote row f tz).ns =
+      let its := parsePattern row.pattern.toList
+      let off : Int := if hasZone its then f.zoneOff else if its.contains .tzName then nameOff f.zname else tz
+      let nano : Nat := (nanoOpt f its).getD 0
+      if its.contains .hour then
+        S4V.Model.Time.instantNs f.year f.month f.day f.hour f.minute f.second nano off
+      else S4V.Model.Time.instantNs f.year f.month f.day 0 0 0 nano off := by
+  simp only [denote, hts, Bool.false_eq_true, if_false]
+  split <;> exact civilDT_ns _ _ _ _ _ _ _ _
+
+/-- explicit zone wins: with a written zone (numeric or named) the result does not depend on `--tz-offset` -/
+theorem C14_abs_zone_wins (row : Row) (f : Fields) (tz tz' : Int)
+    (hts : (parsePattern row.pattern.toList).contains .timestamp = false)
+    (hz : hasZone (parsePattern row.pattern.toList) = true ∨ (parsePattern row.pattern.toList).contains .tzName = true) :
+    denote row f tz = denote row f tz' := by
+  simp only [denote, hts, Bool.false_eq_true, if_false]
+  rcases hz with h | h
+  · simp only [h, if_true]
+  · cases hasZone (parsePattern row.pattern.toList) <;> simp only [h, if_true, Bool.false_eq_true, if_false]
+
+/-- zone-less: the result carries `--tz-offset` -/
+theorem C14_abs_zoneless (row : Row) (f : Fields) (tz : Int)
+    (hz : hasZone (parsePattern row.pattern.toList) = false) (hn : (parsePattern row.pattern.toList).contains .tzName = false) :
+    (denote row f tz).off = tz := by
+  simp only [denote, hz, hn, Bool.false_eq_true, if_false]
+  split
+  · rfl
+  · split <;> rfl
+
+/-- hypotheses of `C14_abs` are satisfiable: 2024-02-29 23:59:60 (a leap-second reading), `.123` /
+`.123456`, zone `-03:30`, name `PST`, epoch 946684800 -/
+def exFields : Fields :=
+  { year := 2024, month := 2, day := 29, hour := 23, minute := 59, second := 60, milli := 123, micro := 123456,
+    zsign := '-', zh := 3, zm := 30, zstyle := .colon, zname := ['P', 'S', 'T'],
+    ts := ['9', '4', '6', '6', '8', '4', '8', '0', '0'] }
+
+theorem exFields_valid : exFields.Valid :=
+  { year := by decide, date := by decide, hour := by decide, minute := by decide, second := by decide,
+    milli := by decide, micro := by decide, zsign := by decide, zh := by decide, zm := by decide,
+    zname := ⟨"-08:00", by decide +kernel, by decide⟩, ts_ne := by decide, ts_dig := by decide, ts_le := by decide }
+
+example : render ⟨"%Y-%m-%d %H:%M:%S.%3f %z", true, true, false, true⟩ exFields =
+    "2024-02-29 23:59:60.123 -03:30".toList := by decide
+
+example (tz : Int) (htz : -86400 < tz ∧ tz < 86400) :
+    attemptRow ⟨"%Y-%m-%d %H:%M:%S.%3f %z", true, true, false, true⟩
+      "2024-02-29 23:59:60.123 -03:30".toList tz =
+      some ⟨S4V.Model.Time.epochSeconds 2024 2 29 23 59 59 (-12600), 1123000000, -12600⟩ := by
+  have h := C14_abs ⟨"%Y-%m-%d %H:%M:%S.%3f %z", true, true, false, true⟩ (by decide) exFields exFields_valid
+    (by decide) tz htz
+  have e : render ⟨"%Y-%m-%d %H:%M:%S.%3f %z", true, true, false, true⟩ exFields =
+    "2024-02-29 23:59:60.123 -03:30".toList := by decide
+  rw [e] at h
+  rw [h, C14_abs_zone_wins _ exFields tz 0 (by decide) (Or.inl (by decide))]
+  decide
+
+-- a named zone and a bare date, all `--tz-offset`s
+example (tz : Int) (htz : -86400 < tz ∧ tz < 86400) :
+    attemptRow ⟨"%Y%m%dT%H%M%S%Z", true, true, true, true⟩ (render ⟨"%Y%m%dT%H%M%S%Z", true, true, true, true⟩ exFields) tz =
+      some (denote ⟨"%Y%m%dT%H%M%S%Z", true, true, true, true⟩ exFields tz) :=
+  C14_abs _ (by decide) exFields exFields_valid (by decide) tz htz
+example (tz : Int) (htz : -86400 < tz ∧ tz < 86400) :
+    attemptRow ⟨"%Y/%m/%d", true, false, false, false⟩ (render ⟨"%Y/%m/%d", true, false, false, false⟩ exFields) tz =
+      some (denote ⟨"%Y/%m/%d", true, false, false, false⟩ exFields tz) :=
+  C14_abs _ (by decide) exFields exFields_valid (by decide) tz htz
+
+/-- the representative values of `C14_abs_repr_own_row` are instances: for the rows without `%#z`
+(whose representative is the bare `+05`), `reprValue` is `render` of one field assignment -/
+def reprFields : Fields :=
+  { year := 2024, month := 2, day := 29, hour := 23, minute := 59, second := 58, milli := 123, micro := 123456,
+    zsign := '+', zh := 5, zm := 30, zstyle := .compact, zname := ['P', 'S', 'T'],
+    ts := ['9', '4', '6', '6', '8', '4', '8', '0', '0'] }
+
+theorem reprValue_is_render :
+    cliFilterPatterns.all (fun row =>
+      (parsePattern row.pattern.toList).contains (.tz true) ||
+      decide (render row { reprFields with
+          zstyle := if row.pattern.toList.reverse.take 3 == ['z', ':', '%'] then .colon else .compact } =
+        reprValue row.pattern.toList)) = true := by
+  decide +kernel
+
+/-- **C14_no_steal, first row.** The first generated row (`%Y%m%dT%H%M%S`, the help text's main form)
+has no earlier row: EVERY value of its grammar resolves to the documented instant through the whole
+of `process_dt`, whatever the other bound and the clock. -/
+theorem C14_abs_first_row (row : Row) (hrow : cliFilterPatterns.head? = some row) (f : Fields) (hf : f.Valid)
+    (tz : Int) (htz : -86400 < tz ∧ tz < 86400) (other : Option DT) (now : Int) :
+    processDtL (render row f) tz other now = .some (denote row f tz) := by
+  have hmem : row ∈ cliFilterPatterns := List.mem_of_mem_head? hrow
+  have hst : styleOk f (parsePattern row.pattern.toList) = true := by
+    have : cliFilterPatterns.head? = some ⟨"%Y%m%dT%H%M%S", true, false, false, true⟩ := by decide
+    rw [this] at hrow
+    injection hrow with hrow
+    subst hrow
+    rfl
+  have h := C14_abs row hmem f hf hst tz htz
+  cases hc : cliFilterPatterns with
+  | nil => rw [hc] at hrow; cases hrow
+  | cons r rs =>
+    rw [hc] at hrow
+    simp only [List.head?_cons, Option.some.injEq] at hrow
+    subst hrow
+    simp only [processDtL, hc, firstRow, h]
+
+example : cliFilterPatterns.head? = some ⟨"%Y%m%dT%H%M%S", true, false, false, true⟩ := by decide
+
+theorem firstRow_isSome_of_mem (rows : List Row) (row : Row) (hm : row ∈ rows) (v : List Char) (tz : Int)
+    (h : (attemptRow row v tz).isSome = true) : (firstRow rows v tz).isSome = true := by
+  induction rows with
+  | nil => simp at hm
+  | cons r rs ih =>
+    simp only [firstRow]
+    cases hr : attemptRow r v tz with
+    | some dt => rfl
+    | none =>
+      rcases List.mem_cons.mp hm with e | e
+      · subst e; rw [hr] at h; cases h
+      · exact ih e
+
+/-- **C14_abs (accepted).** every value of every row's grammar is accepted by `process_dt` as an absolute
+date-time (it never falls through to the relative branch or to "unparsable"), whatever row wins -/
+theorem C14_abs_accepted (row : Row) (hrow : row ∈ cliFilterPatterns) (f : Fields) (hf : f.Valid)
+    (hst : styleOk f (parsePattern row.pattern.toList) = true) (tz : Int) (htz : -86400 < tz ∧ tz < 86400)
+    (other : Option DT) (now : Int) : ∃ dt, processDtL (render row f) tz other now = .some dt := by
+  have h := firstRow_isSome_of_mem cliFilterPatterns row hrow (render row f) tz
+    (by rw [C14_abs row hrow f hf hst tz htz]; rfl)
+  cases hfr : firstRow cliFilterPatterns (render row f) tz with
+  | none => rw [hfr] at h; cases h
+  | some dt => exact ⟨dt, by simp [processDtL, hfr]⟩
+
+theorem firstRow_of_agree (pre : List Row) (row : Row) (post : List Row) (v : List Char) (tz : Int) (dt : DT)
+    (hrow : attemptRow row v tz = some dt)
+    (hpre : ∀ r ∈ pre, attemptRow r v tz = none ∨ attemptRow r v tz = some dt) :
+    firstRow (pre ++ row :: post) v tz = some dt := by
+  induction pre with
+  | nil => simp [firstRow, hrow]
+  | cons r rs ih =>
+    simp only [List.cons_append, firstRow]
+    rcases hpre r (by simp) with h | h
+    · rw [h]; exact ih (fun x hx => hpre x (by simp [hx]))
+    · rw [h]
+
+/-- **C14_no_steal (interface).** through the whole of `process_dt`: a value of row `row`'s grammar
+resolves to the documented instant as soon as no EARLIER row reads it differently. (The hypothesis is
+discharged for all values of the first row by `C14_abs_first_row`, and for the representative values of
+15 rows by `C14_no_steal_repr`; a general proof for every later row is not done.) -/
+theorem C14_abs_processDt (pre : List Row) (row : Row) (post : List Row) (htable : cliFilterPatterns = pre ++ row :: post)
+    (f : Fields) (hf : f.Valid) (hst : styleOk f (parsePattern row.pattern.toList) = true)
+    (tz : Int) (htz : -86400 < tz ∧ tz < 86400)
+    (hns : ∀ r ∈ pre, attemptRow r (render row f) tz = none ∨ attemptRow r (render row f) tz = some (denote row f tz))
+    (other : Option DT) (now : Int) :
+    processDtL (render row f) tz other now = .some (denote row f tz) := by
+  have hmem : row ∈ cliFilterPatterns := by rw [htable]; simp
+  have h := firstRow_of_agree pre row post (render row f) tz _ (C14_abs row hmem f hf hst tz htz) hns
+  simp only [processDtL, htable, h]
+
+theorem split_at_index {α : Type} (l : List α) (i : Nat) (x : α) (h : l[i]? = some x) :
+    l = l.take i ++ x :: l.drop (i + 1) := by
+  induction l generalizing i with
+  | nil => simp at h
+  | cons a as ih =>
+    cases i with
+    | zero => simp at h; simp [h]
+    | succ n =>
+      simp only [List.getElem?_cons_succ] at h
+      simp only [List.take_succ_cons, List.drop_succ_cons, List.cons_append]
+      rw [← ih n h]
+
+/-- the rows for which NO earlier row of the generated table reads ANY of their values (decided on the
+table by `noStealRow`: after a common prefix of items the earlier pattern meets a character it
+cannot take, or leaves text over): the zone-less forms of the help text — `%Y%m%dT%H%M%S`,
+`%Y-%m-%d %H:%M:%S`, `%Y-%m-%dT%H:%M:%S`, `%Y/%m/%d %H:%M:%S`, each also with `.%3f`, and the three bare
+dates (0-based positions in `CLI_FILTER_PATTERNS`) -/
+theorem C14_no_steal_rows :
+    (List.range cliFilterPatternsCount).filter noStealRow = [0, 1, 15, 16, 30, 31, 57, 58, 72, 73, 74] := by
+  decide +kernel
+
+/-- **C14_no_steal.** For those rows, EVERY value of the row's grammar resolves to the documented instant
+through the whole of `process_dt` (all earlier rows are tried first and refuse it), whatever the other
+bound and the clock. For the remaining rows (zoned forms, `.%6f`, `+%s`) an earlier row MAY read the
+value (e.g. `%z` reads what `%:z` is meant for) and agreement is only decided on representatives
+(`C14_no_steal_repr`). -/
+theorem C14_no_steal (i : Nat) (hi : noStealRow i = true) (row : Row) (hrow : cliFilterPatterns[i]? = some row)
+    (f : Fields) (hf : f.Valid) (hst : styleOk f (parsePattern row.pattern.toList) = true)
+    (tz : Int) (htz : -86400 < tz ∧ tz < 86400) (other : Option DT) (now : Int) :
+    processDtL (render row f) tz other now = .some (denote row f tz) := by
+  simp only [noStealRow, hrow, List.all_eq_true] at hi
+  exact C14_abs_processDt (cliFilterPatterns.take i) row (cliFilterPatterns.drop (i + 1))
+    (split_at_index _ i row hrow) f hf hst tz htz
+    (fun r hr => Or.inl (attemptRow_none_of_pair r row f hf tz (hi r hr))) other now
+
+-- e.g. the help text's `2022-01-02` form (position 73), any date, any `--tz-offset`
+example (f : Fields) (hf : f.Valid) (tz : Int) (htz : -86400 < tz ∧ tz < 86400) (other : Option DT) (now : Int) :
+    processDtL (render ⟨"%Y-%m-%d", true, false, false, false⟩ f) tz other now =
+      .some (civilDT f.year f.month f.day 0 0 0 0 tz) :=
+  C14_no_steal 73 (List.mem_filter.mp (show 73 ∈ (List.range cliFilterPatternsCount).filter noStealRow by
+    rw [C14_no_steal_rows]; decide)).2 _ (by decide) f hf rfl tz htz other now
+
+end AbsAll
 
 end S4V.Props.CliSpec
